@@ -297,7 +297,7 @@ func (x *Exec) checkClosure(sp *spec.FuncSpec, s *closureSite, sig string) {
 	B := x.B
 	x.prefix = QualName(s.frame.fn)
 	x.sig = sig
-	var exprC, stmtC *spec.Clause
+	var exprC, stmtC, jumpC *spec.Clause
 	var reqs, invs []*spec.Clause
 	for _, c := range sp.Of("closure") {
 		w := strings.Fields(c.Text)
@@ -309,14 +309,16 @@ func (x *Exec) checkClosure(sp *spec.FuncSpec, s *closureSite, sig string) {
 			exprC = c
 		case "stmt":
 			stmtC = c
+		case "jump":
+			jumpC = c
 		case "requires":
 			reqs = append(reqs, c)
 		case "loop":
 			invs = append(invs, c)
 		}
 	}
-	if exprC == nil && stmtC == nil {
-		specErr("%s creates closures but its contract has no 'closure expr' or 'closure stmt' clause", QualName(s.frame.fn))
+	if exprC == nil && stmtC == nil && jumpC == nil {
+		specErr("%s creates closures but its contract has no 'closure expr', 'closure stmt' or 'closure jump' clause", QualName(s.frame.fn))
 	}
 	clo := s.clo
 	fn := clo.Fn
@@ -425,6 +427,9 @@ func (x *Exec) checkClosure(sp *spec.FuncSpec, s *closureSite, sig string) {
 			x.oblige("closure-type", fmt.Sprintf("closure returns %s, the contract value has type %s", rt, tv.T), x.where(fn), run, B.False())
 			return
 		}
+	} else if jumpC != nil {
+		alt = x.evalJumpSpec(specFrame, fe, jumpC, specSt, s.st)
+		specRes = alt.results
 	} else {
 		alt = x.evalStmtSpec(specFrame, fe, stmtC, specSt, s.st)
 		specRes = alt.results
@@ -439,6 +444,8 @@ func (x *Exec) checkClosure(sp *spec.FuncSpec, s *closureSite, sig string) {
 	clauseText := ""
 	if exprC != nil {
 		clauseText = exprC.Text
+	} else if jumpC != nil {
+		clauseText = jumpC.Text
 	} else {
 		clauseText = stmtC.Text
 	}
@@ -711,6 +718,77 @@ func (x *Exec) trampoline(f *Frame, fe *famEnv, s *State) []Value {
 	p := &Ptr{Arr: arr, Idx: B.IndexAdd(off, nip), Off: off, Rel: nip, Key: "[]" + typeKey(et), Type: et}
 	stmt := x.load(s, p, et)
 	return []Value{stmt, fe.env}
+}
+
+// evalJumpSpec interprets a control-transfer schema:
+//
+//	jump N, P
+//
+// the closure leaves N frames (o = up(env, N)), sets o.IP to the integer P points to *when the
+// closure runs* (jump targets are patched after the closure is created) and returns
+// (o.Code[o.IP], o). N and P are expressions of the compile function, evaluated at creation.
+func (x *Exec) evalJumpSpec(f *Frame, fe *famEnv, c *spec.Clause, st, create *State) *specAlt {
+	B := x.B
+	text := strings.TrimSpace(strings.TrimPrefix(strings.TrimSpace(c.Text), "jump"))
+	parts := splitTopComma(text)
+	if len(parts) != 2 {
+		specErr("closure jump N, P: %s", text)
+	}
+	nE, err := spec.ParseExpr(parts[0])
+	if err != nil {
+		specErr("%v", err)
+	}
+	pE, err := spec.ParseExpr(parts[1])
+	if err != nil {
+		specErr("%v", err)
+	}
+	par := fe.parent
+	n := par.asInt64(par.coerce(fe.atCreation(nE), types.Typ[types.Int]))
+	n = x.simplifyUnder(create.PC, n)
+	ptr := fe.atCreation(pE)
+	pt, ok := ptr.T.Underlying().(*types.Pointer)
+	if !ok {
+		specErr("closure jump: %s is not a pointer", parts[1])
+	}
+	envPT := f.fn.Params[0].Type()
+	envT := envPT.Underlying().(*types.Pointer).Elem()
+	o := x.upTerm(st, fe.env, n, envT)
+	if !n.IsConst() {
+		fe.specFrame = o
+	}
+	target := x.load(st, ptr.V, pt.Elem()).(*smt.Term)
+	ipP, ipT := x.fieldByName(o, envT, "IP")
+	x.store(st, ipP, ipT, target)
+	codeP, codeT := x.fieldByName(o, envT, "Code")
+	code := x.load(st, codeP, codeT)
+	arr, off, _, _ := sliceParts(code)
+	et := codeT.Underlying().(*types.Slice).Elem()
+	p := &Ptr{Arr: arr, Idx: B.IndexAdd(off, target), Off: off, Rel: target, Key: "[]" + typeKey(et), Type: et}
+	stmt := x.load(st, p, et)
+	a := &specAlt{}
+	a.states = append(a.states, st)
+	a.res = append(a.res, []Value{stmt, o})
+	a.results = a.res[0]
+	return a
+}
+
+func splitTopComma(s string) []string {
+	var out []string
+	depth, start := 0, 0
+	for i, ch := range s {
+		switch ch {
+		case '(', '[':
+			depth++
+		case ')', ']':
+			depth--
+		case ',':
+			if depth == 0 {
+				out = append(out, strings.TrimSpace(s[start:i]))
+				start = i + 1
+			}
+		}
+	}
+	return append(out, strings.TrimSpace(s[start:]))
 }
 
 // place is an assignable location of the contract language.
